@@ -1,7 +1,8 @@
-// Package c18 decides property C18 on the Bash target: a command call runs the
-// program with exactly the given arguments, pipes connect stages in order, and
-// a captured call chain yields the last stage's output (minus one trailing
-// newline) and its exit status without printing anything.
+// Package c18 decides property C18: a command call runs the program with
+// exactly the given arguments, pipes connect stages in order, and a captured
+// call chain yields the last stage's output (minus one trailing newline) and
+// its exit status without printing anything - on the Bash target with the real
+// bash (this file) and on the Batch target under the cmd.exe model (batch.go).
 //
 // A probe executable (bash builtins only; the scripts run with an empty
 // environment) records its argv hex-encoded, tags what it reads from stdin and
@@ -52,6 +53,7 @@ for a in "$@"; do
 done
 case "$tail" in
   none) printf '%s.' "$n";;
+  mute) ;;
   *) printf '%s.\n' "$n";;
 esac
 exit "$st"
@@ -89,9 +91,11 @@ func probeRun(name, stdin string, args []string) (out string, status int) {
 			tail = strings.TrimPrefix(a, "tail:")
 		}
 	}
-	if tail == "none" {
+	switch tail {
+	case "none":
 		out += name + "."
-	} else {
+	case "mute": // the program prints nothing of its own
+	default:
 		out += name + ".\n"
 	}
 	return out, status
@@ -164,6 +168,40 @@ type Case struct {
 	// Warm: another captured command call (@"./say"("warm", "up")) runs BEFORE the chain, so the chain is not the
 	// first command call the transpiler emits (whatever it keeps from one call site to the next must not matter)
 	Warm bool
+	// Targets: which of the three targets of a capturing definition/assignment carry a name ("" = all three:
+	// o, e, c) and which are the blank name, e.g. "_,_,c"; Form: "" (o, e, c := chain), "var" (var o, e, c = chain)
+	// or "assign" (the targets are defined beforehand, o, e, c = chain). Captured output must never be printed,
+	// whatever the targets are called.
+	Targets string
+	Form    string
+}
+
+// targetNames returns the three target spellings and which of them are named.
+func (c Case) targetNames() (names [3]string, named [3]bool) {
+	names = [3]string{"o", "e", "c"}
+	named = [3]bool{true, true, true}
+	if c.Targets != "" {
+		for i, t := range strings.Split(c.Targets, ",") {
+			names[i] = t
+			named[i] = t != "_"
+		}
+	}
+	return
+}
+
+// targetKey is the coordinate suffix of the target-vector dimension ("" for the base form).
+func (c Case) targetKey() string {
+	if c.Targets == "" && c.Form == "" {
+		return ""
+	}
+	t, f := c.Targets, c.Form
+	if t == "" {
+		t = "o,e,c"
+	}
+	if f == "" {
+		f = "define"
+	}
+	return " targets=" + t + " form=" + f
 }
 
 func (c Case) cells() []string {
@@ -195,7 +233,7 @@ func (c Case) String() string {
 	if c.Warm {
 		w = " after-another-call"
 	}
-	return fmt.Sprintf("%s mode=%s stages=%s%s", c.Kind, c.Mode, strings.Join(st, "|"), w)
+	return fmt.Sprintf("%s mode=%s stages=%s%s%s", c.Kind, c.Mode, strings.Join(st, "|"), w, c.targetKey())
 }
 
 func (c Case) source() string {
@@ -223,8 +261,27 @@ func (c Case) source() string {
 		sb.WriteString(p + "\n")
 	}
 	if c.Mode == "captured" {
-		sb.WriteString("o, e, c := " + strings.Join(chain, " | ") + "\n")
-		sb.WriteString("print(\"<\" + o + \">\")\nprint(c)\n")
+		names, named := c.targetNames()
+		list := names[0] + ", " + names[1] + ", " + names[2]
+		switch c.Form {
+		case "var":
+			sb.WriteString("var " + list + " = " + strings.Join(chain, " | ") + "\n")
+		case "assign":
+			// every target exists already; the blank name is an ordinary (string) variable
+			sb.WriteString("o := \"\"\ne := \"\"\nc := 0\n")
+			if !named[0] || !named[1] {
+				sb.WriteString("_ := \"\"\n")
+			}
+			sb.WriteString(list + " = " + strings.Join(chain, " | ") + "\n")
+		default:
+			sb.WriteString(list + " := " + strings.Join(chain, " | ") + "\n")
+		}
+		if named[0] {
+			sb.WriteString("print(\"<\" + o + \">\")\n")
+		}
+		if named[2] {
+			sb.WriteString("print(c)\n")
+		}
 	} else {
 		sb.WriteString(strings.Join(chain, " | ") + "\n")
 	}
@@ -252,7 +309,13 @@ func (c Case) expect() (stdout string, logs map[string]string, skip string) {
 		if strings.HasSuffix(data, "\n\n") {
 			return "", nil, "output ends in two newlines: 'without its trailing newline' is ambiguous"
 		}
-		stdout = "<" + strings.TrimSuffix(data, "\n") + ">\n" + fmt.Sprint(status) + "\n"
+		_, named := c.targetNames()
+		if named[0] {
+			stdout = "<" + strings.TrimSuffix(data, "\n") + ">\n"
+		}
+		if named[2] {
+			stdout += fmt.Sprint(status) + "\n"
+		}
 	} else {
 		stdout = data
 		if !strings.HasSuffix(data, "\n") {
@@ -374,7 +437,7 @@ func judge(c Case) obs {
 	switch {
 	case got.Stdout != wantOut:
 		o.Symptom, o.Detail = "stdout", diffHint(wantOut, got.Stdout)
-		if c.Mode == "captured" {
+		if c.Mode == "captured" && c.Targets == "" {
 			wl, gl := strings.Split(wantOut, "\n"), strings.Split(got.Stdout, "\n")
 			if len(wl) == len(gl) && len(wl) >= 3 {
 				same := true
@@ -652,6 +715,23 @@ func pipelineCases(thorough bool) []Case {
 		"two":  {{Name: "b_c", Value: "b c", Origin: "var"}, lit("dashn")},
 	}
 	var out []Case
+	mk := func(L int, pn, tail string, pr []int, last int, m string) ([][]Arg, string) {
+		var stages [][]Arg
+		for s := 0; s < L; s++ {
+			st := last
+			if s < L-1 {
+				st = pr[s]
+			}
+			as := []Arg{aux(fmt.Sprintf("exit:%d", st))}
+			if tail != "one" {
+				as = append(as, aux("tail:"+tail))
+			}
+			as = append(as, pats[pn]...)
+			stages = append(stages, as)
+		}
+		coord := fmt.Sprintf("pipeline=%d argpat=%s tail=%s prior=%s status=%d mode=%s", L, pn, tail, strings.Trim(strings.ReplaceAll(fmt.Sprint(pr), " ", ","), "[]"), last, m)
+		return stages, coord
+	}
 	for L := 1; L <= 3; L++ {
 		priors := [][]int{{}}
 		for i := 1; i < L; i++ {
@@ -664,30 +744,53 @@ func pipelineCases(thorough bool) []Case {
 			priors = nx
 		}
 		for _, pn := range []string{"none", "one", "two"} {
-			for _, tail := range []string{"one", "none"} {
+			for _, tail := range []string{"one", "none", "mute"} {
 				for _, pr := range priors {
 					for _, last := range statuses {
+						if tail == "mute" && last != 0 && last != 37 {
+							continue // a program without output of its own: two statuses
+						}
 						for _, m := range modes {
 							if m == "uncaptured" && last != 0 && last != 37 {
 								continue // the status of an uncaptured chain is not observable
 							}
-							var stages [][]Arg
-							for s := 0; s < L; s++ {
-								st := last
-								if s < L-1 {
-									st = pr[s]
-								}
-								as := []Arg{aux(fmt.Sprintf("exit:%d", st))}
-								if tail == "none" {
-									as = append(as, aux("tail:none"))
-								}
-								as = append(as, pats[pn]...)
-								stages = append(stages, as)
-							}
-							coord := fmt.Sprintf("pipeline=%d argpat=%s tail=%s prior=%s status=%d mode=%s", L, pn, tail, strings.Trim(strings.ReplaceAll(fmt.Sprint(pr), " ", ","), "[]"), last, m)
+							stages, coord := mk(L, pn, tail, pr, last, m)
 							out = append(out, Case{Kind: "pipeline", Stages: stages, Mode: m, Coord: coord})
 							// the same chain inside a function body (locals, helper variables and $? behave differently there)
 							out = append(out, Case{Kind: "pipeline", Stages: stages, Mode: m, Coord: coord + " ctx=function", InFunc: true})
+						}
+					}
+				}
+			}
+		}
+	}
+	// (E) the target vector of a capturing definition / assignment: each of the three targets named or the blank
+	// name, in the := form, the var form and (where the blank name can be typed: it is an ordinary string variable)
+	// as an assignment to existing variables, at top level and inside a function, crossed with chain length x
+	// argument pattern x trailing newline x status of the first / the last stage
+	tStatuses := []int{0, 37}
+	if thorough {
+		tStatuses = []int{0, 1, 2, 37, 126, 127, 128, 255}
+	}
+	for _, tv := range targetVectors() {
+		for L := 1; L <= 3; L++ {
+			priors := [][]int{make([]int, L-1)}
+			if L > 1 {
+				p := make([]int, L-1)
+				p[0] = 3
+				priors = append(priors, p)
+			}
+			for _, pn := range []string{"none", "one", "two"} {
+				for _, tail := range []string{"one", "none"} {
+					for _, pr := range priors {
+						for _, last := range tStatuses {
+							stages, coord := mk(L, pn, tail, pr, last, "captured")
+							c := Case{Kind: "pipeline", Stages: stages, Mode: "captured", Targets: tv[0], Form: tv[1]}
+							c.Coord = coord + c.targetKey()
+							out = append(out, c)
+							c.InFunc = true
+							c.Coord = coord + " ctx=function" + c.targetKey()
+							out = append(out, c)
 						}
 					}
 				}
@@ -714,6 +817,29 @@ func pipelineCases(thorough bool) []Case {
 					out = append(out, Case{Kind: "pipeline", Stages: stages, Mode: m, Coord: coord + " ctx=function", InFunc: true})
 				}
 			}
+		}
+	}
+	return out
+}
+
+// targetVectors lists (targets, form) for every vector over {named, blank}^3 in the := and var forms and, for the
+// vectors whose blank positions are strings, as an assignment; the base form (o, e, c :=) is not repeated.
+func targetVectors() [][2]string {
+	var out [][2]string
+	for m := 0; m < 8; m++ {
+		names := []string{"o", "e", "c"}
+		for i := range names {
+			if m&(1<<i) != 0 {
+				names[i] = "_"
+			}
+		}
+		t := strings.Join(names, ",")
+		if m != 0 {
+			out = append(out, [2]string{t, ""})
+		}
+		out = append(out, [2]string{t, "var"})
+		if names[2] != "_" {
+			out = append(out, [2]string{t, "assign"})
 		}
 	}
 	return out
@@ -751,9 +877,24 @@ func Run() int {
 	outcomes := findings.NewDistinct()
 	var mu sync.Mutex
 	capped := false
+	capReason := "sweep stopped at the internal deadline"
 	evals, skippedAmbiguous := 0, 0
 	symptomHist := map[string]int{}
 	statusSeen := map[int]bool{}
+
+	// ---- Batch phase (in-process under the cmd.exe model; a few seconds)
+	bEvals, bDistinct, bCapped := runBatchPhase(r, func() bool { return time.Now().After(deadline) })
+	evals += bEvals
+	if bCapped {
+		capped = true
+	}
+
+	if os.Getenv("VERIF_C18_PHASE") == "batch" {
+		// development aid: the Batch phase alone (the run is then NOT exhaustive and says so)
+		args, pipes = nil, nil
+		capped = true
+		capReason = "development switch VERIF_C18_PHASE=batch: the Bash phases were not run"
+	}
 
 	// ---- phase 1: single-argument cells (the table)
 	cells := map[string]*cellInfo{} // "name:origin:mode" -> failing cell
@@ -800,6 +941,48 @@ func Run() int {
 		r.Fail(fmt.Sprintf("arg=%s origin=%s mode=%s symptom=%s", a.Name, a.Origin, ci.c.Mode, ci.symptom),
 			fmt.Sprintf("@\"./p1\"(x) with x = %s given as %s, %s: %s%s", tsQuote(a.Value), a.Origin, ci.c.Mode, ci.o.Detail, note), replay(ci.c, ci.o))
 	}
+
+	// ---- phase 1b: every passing captured cell under every other target vector (:= form)
+	targetRuns, targetRejected, targetSkippedOnFailingCell := 0, 0, 0
+	var tcells []Case
+	for _, c := range singles {
+		if c.Mode != "captured" {
+			continue
+		}
+		a := c.Stages[0][0]
+		if _, bad := cells[a.Name+":"+a.Origin+":"+c.Mode]; bad {
+			targetSkippedOnFailingCell += 7
+			continue
+		}
+		for _, tv := range targetVectors() {
+			if tv[1] == "" {
+				tc := c
+				tc.Targets = tv[0]
+				tcells = append(tcells, tc)
+			}
+		}
+	}
+	drive.Par(len(tcells), func(i int) {
+		c := tcells[i]
+		distinct.Add(c.String())
+		o := judge(c)
+		outcomes.Add(o.WantOut + fmt.Sprint(o.WantLog))
+		mu.Lock()
+		evals++
+		targetRuns++
+		symptomHist["targets:"+o.Symptom]++
+		if o.Symptom == "rejected" {
+			targetRejected++
+		}
+		mu.Unlock()
+		if o.Symptom == "" || o.Symptom == "rejected" {
+			return // whether a target vector is accepted is not a clause of this property
+		}
+		confirm(c, o)
+		a := c.Stages[0][0]
+		r.Fail(fmt.Sprintf("arg=%s origin=%s mode=%s%s symptom=%s", a.Name, a.Origin, c.Mode, c.targetKey(), o.Symptom),
+			fmt.Sprintf("%s: %s", c, o.Detail), replay(c, o))
+	})
 
 	// ---- phase 2: longer lists, explained compositionally by the cells or reported on their own
 	explainedExact, explainedCommand, unexplained, badCellPassing := 0, 0, 0, 0
@@ -900,12 +1083,21 @@ func Run() int {
 		var st int
 		fmt.Sscanf(c.Coord[strings.Index(c.Coord, "status=")+7:], "%d", &st)
 		statusSeen[st] = true
+		if c.targetKey() != "" {
+			targetRuns++
+			if o.Symptom == "rejected" {
+				targetRejected++
+			}
+		}
 		mu.Unlock()
 		if i%211 == 0 {
 			r.Sample(map[string]string{"kind": "pipeline", "case": c.Coord, "source": c.source(), "expected_stdout": o.WantOut, "symptom": o.Symptom})
 		}
 		if o.Symptom == "" {
 			return
+		}
+		if c.targetKey() != "" && o.Symptom == "rejected" {
+			return // whether a target vector is accepted is not a clause of this property
 		}
 		confirm(c, o)
 		mu.Lock()
@@ -922,7 +1114,7 @@ func Run() int {
 	}
 	sort.Strings(passingExamples)
 	r.Set("evaluations", evals)
-	r.Set("distinct_nontrivial", distinct.Len())
+	r.Set("distinct_nontrivial", distinct.Len()+bDistinct)
 	r.Set("distinct_expected_observations", outcomes.Len())
 	r.Set("argument_programs", len(args))
 	r.Set("pipeline_programs", len(pipes))
@@ -936,13 +1128,17 @@ func Run() int {
 	r.Set("symptom_histogram", symptomHist)
 	r.Set("exit_statuses_exercised", len(statusSeen))
 	r.Set("pipeline_failures", pipeFails)
+	r.Set("target_vector_programs", targetRuns)
+	r.Set("target_vector_programs_rejected_by_the_transpiler_not_judged", targetRejected)
+	r.Set("target_vector_cells_not_run_because_the_base_cell_fails", targetSkippedOnFailingCell)
 	r.Set("skipped_ambiguous_trailing_newlines", skippedAmbiguous)
 	if capped {
 		r.Set("exhaustive", false)
-		r.Set("cap_hit", "sweep stopped at the internal deadline")
+		r.Set("cap_hit", capReason)
 	}
-	r.Set("rule", "a case = one TypeShell program with one call chain of probe stages, transpiled by the real transpiler and run by the real bash in an empty environment; (A) every literal argument list up to the tier's length over the 12 representative strings, (B) every origin vector over {literal,var,concat,call} for lists of length 1-2 (length 3 over {literal,var} in thorough), (B') lists of length 2 (every origin vector) and 3 (origins literal/call/capture) as the SECOND command call of the program, after a captured call; (C) every list of length 4-5 over {a, empty, 'b c', *} all-literal and all-variable, each uncaptured and captured; (D) chains of 1..3 stages x argument pattern x trailing newline present/absent x status of earlier stages {0,3} x status of the last stage (tier's set) x captured/uncaptured; distinct by coordinates; every case compares the hex argv record of every stage, stdout, the captured status, stderr and the script's exit status with the model of the probe")
-	r.Assumef("Bash target only; the Batch `_ach` path needs a real cmd.exe and is covered structurally by C16")
+	r.Set("rule", "a case = one TypeShell program, transpiled by the real transpiler; BASH PHASE (one call chain of probe stages per program, run by the real bash in an empty environment): (A) every literal argument list up to the tier's length over the representative strings, (B) every origin vector over {literal,var,concat,call,capture} for lists of length 1-2 (length 3 over {literal,var} in thorough), (B') lists of length 2 (every origin vector) and 3 (origins literal/call/capture) as the SECOND command call of the program, after a captured call; (C) every list of length 4-5 over {a, empty, 'b c', *} all-literal and all-variable, each uncaptured and captured; (D) chains of 1..3 stages x argument pattern x last stage's own line with / without line end / absent (a program that prints nothing) x status of earlier stages {0,3} x status of the last stage (tier's set) x captured/uncaptured x top level / function body; (E) the TARGET VECTOR of a capturing definition: each of the three targets named or the blank name _ (8 vectors) x form {:=, var, assignment to existing variables where _ can be typed} x top level / function body x chain length 1..3 x argument pattern x line end present/absent x first-stage status {0,3} x last status, and every passing captured single-argument cell under the 7 other vectors: captured output is never printed and the named targets hold output and status, whatever the targets are called; BATCH PHASE (the emitted .bat interpreted by verif/cmdmodel, the probe programs installed as its external-program hook; argument alphabet cmd-neutral: letters, digits, a blank inside a literal): (b-A) single-argument cells {a,B7} x 5 origins + 'b c' literal/var, every list of 2 (thorough 3) over the passing cells, (b-D) chains as in (D) with statuses {0,1,3,255} (thorough 0..255), (b-S) TWO and THREE call chains per run: every ordered pair and triple over a 10-site alphabet (output of one line / several / none, status zero / non-zero, captured / uncaptured, quoted and computed arguments, chain length 1-3), (b-L) one site executed 2 and 3 times in a loop and in a function, a function's site with every other site between its two calls, (b-T) the target vectors and forms of (E) on every captured alphabet site alone, repeated in a loop / function and between two other captured calls; distinct by coordinates; every case compares the argv record of every program start, stdout, the captured status, stderr (bash) and the script's exit status with the model of the probe")
+	r.Assumef("Batch target: there is no cmd.exe on this machine; the emitted script runs under verif/cmdmodel (rule 12: call PROGRAM, pipes between programs and the capture helper's for /f over cmd /V:ON /C are interpreted from the emitted text for cmd-neutral command lines; the probe programs are a function installed as the model's hook); every run the model refuses is counted by rule in batch_programs_the_cmd_model_refused_by_rule and never judged")
+	r.Assumef("whether a capturing definition with a given vector of named / blank targets is ACCEPTED is not a clause of this property: rejected programs of the target-vector families are counted, not reported")
 	r.Assumef("the sandbox directory contains the probes p1 p2 p3, a directory log and a one-letter file x, so that unquoted glob characters have something to match")
 	r.Assumef("a list that contains failing single-argument cells is attributed to them when the probe received exactly the concatenation of what each cell receives alone (word-level cells) or when one of its cells cuts or continues the command line itself (semicolon, trailing backslash: no composition rule); every other failing list is reported with its full coordinates")
 	r.Assumef("a captured output ending in two newlines is not compared ('without its trailing newline' is ambiguous there); such cases are not enumerated")
